@@ -1,5 +1,86 @@
 import Ptn.C11.Model
-/-! Line-protocol handler for the C11 model (core Lean only). -/
+/-! Line-protocol handler for the C11 model (core Lean only).
+
+  mat <shape…> | <out…> | <in…>            → `T=<shape after transposition> rows=<m> cols=<n>` | error
+  qr <mode> <shape…> | <q_legs…> | <r_legs…> → `Q=<shape> R=<shape> bond=<b> pad=<p> qlegs=<…> rlegs=<…>` | error
+  svd <mode> <shape…> | <u_legs…> | <v_legs…> → `U=<shape> S=<k> Vh=<shape> ulegs=<…> vlegs=<…>` | error
+  tsvd <kept> <shape…> | <u_legs…> | <v_legs…> → as svd (truncated to `kept` singular values)
+  contr <ucontr|vcontr|equal>              → `<a> <b>`: exponents of S (in halves) absorbed by U and Vh
+
+  modes: reduced | full | keep.  Empty lists are written as nothing between the bars.
+-/
 namespace Ptn.C11
-def handle (args : List String) : String := "bad-op"
+
+def splitBars (ts : List String) : List (List String) :=
+  ts.foldr (fun t acc =>
+    if t = "|" then [] :: acc
+    else match acc with
+      | [] => [[t]]
+      | g :: gs => (t :: g) :: gs) [[]]
+
+def parseNats (ts : List String) : Option (List Nat) := ts.mapM String.toNat?
+
+def parseMode (t : String) : Option Mode :=
+  if t = "reduced" then some .reduced
+  else if t = "full" then some .full
+  else if t = "keep" then some .keep
+  else none
+
+def parseThree (ts : List String) : Option (List Nat × List Nat × List Nat) :=
+  match splitBars ts with
+  | [a, b, c] =>
+    match parseNats a, parseNats b, parseNats c with
+    | some x, some y, some z => some (x, y, z)
+    | _, _, _ => none
+  | _ => none
+
+def showNats (l : List Nat) : String :=
+  if l.isEmpty then "-" else ",".intercalate (l.map toString)
+
+def showLeg : Leg → String
+  | .orig a => toString a
+  | .bond => "b"
+
+def showLegs (l : List Leg) : String :=
+  if l.isEmpty then "-" else ",".intercalate (l.map showLeg)
+
+def showSVD : Option SVDResult → String
+  | none => "error"
+  | some r => s!"U={showNats r.u.shape} S={r.sLen} Vh={showNats r.vh.shape} " ++
+              s!"ulegs={showLegs r.u.legs} vlegs={showLegs r.vh.legs}"
+
+def handle (args : List String) : String :=
+  match args with
+  | "mat" :: rest =>
+    match parseThree rest with
+    | some (sh, a, b) =>
+      match matricize sh a b with
+      | some m => s!"T={showNats m.shapeT} rows={m.rows} cols={m.cols}"
+      | none => "error"
+    | none => "bad-op"
+  | "qr" :: mode :: rest =>
+    match parseMode mode, parseThree rest with
+    | some md, some (sh, a, b) =>
+      match tensorQR md sh a b with
+      | some r => s!"Q={showNats r.q.shape} R={showNats r.r.shape} bond={r.bond} pad={r.pad} " ++
+                  s!"qlegs={showLegs r.q.legs} rlegs={showLegs r.r.legs}"
+      | none => "error"
+    | _, _ => "bad-op"
+  | "svd" :: mode :: rest =>
+    match parseMode mode, parseThree rest with
+    | some md, some (sh, a, b) => showSVD (tensorSVD md sh a b)
+    | _, _ => "bad-op"
+  | "tsvd" :: kept :: rest =>
+    match kept.toNat?, parseThree rest with
+    | some k, some (sh, a, b) => showSVD (truncatedSVD sh a b k)
+    | _, _ => "bad-op"
+  | ["contr", m] =>
+    let cm : Option ContrMode :=
+      if m = "ucontr" then some .ucontr else if m = "vcontr" then some .vcontr
+      else if m = "equal" then some .equal else none
+    match cm with
+    | some c => s!"{(absorb c).1} {(absorb c).2}"
+    | none => "bad-op"
+  | _ => "bad-op"
+
 end Ptn.C11
